@@ -296,3 +296,95 @@ def equiv_term(case, pair_lits):
         return None
     f = "get_rc (its_construct %s %s)" if case.get("method", "RC") == "RC" else "its_construct %s %s"
     return "run_equiv [%s]" % "; ".join(f % p for p in pair_lits)
+
+
+# ------------------------------------------------------------------ BalanceReactionCheck on records (model/C09_Records.v)
+
+def _rec_input(form):
+    """JSON form -> the Python value handed to parse_input / dicts_balance_check"""
+    if "str" in form:
+        return form["str"]
+    if "other" in form:
+        return form["other"]
+    out = []
+    for it in form["list"]:
+        if isinstance(it, str):
+            out.append(it)
+        elif isinstance(it, dict) and "dict" in it:
+            out.append({k: v for k, v in it["dict"]})
+        else:
+            out.append(it["other"])
+    return out
+
+
+def _enc_val(v):
+    if isinstance(v, bool):
+        return [1, v]
+    if isinstance(v, str):
+        return [0, v]
+    return [2, int(v)]
+
+
+def _enc_rec(d):
+    return [[k, _enc_val(v)] for k, v in d.items()]
+
+
+def records_impl(case):
+    quiet()
+    from synkit.Chem.Reaction.balance_check import BalanceReactionCheck
+    col = case["col"]
+    try:
+        parsed = [_enc_rec(d) for d in BalanceReactionCheck.parse_input(_rec_input(case["input"]), col)]
+    except ValueError:
+        parsed = [-1]
+    try:
+        bal, unb = BalanceReactionCheck(n_jobs=1).dicts_balance_check(_rec_input(case["input"]), col)
+        res = [[_enc_rec(d) for d in bal], [_enc_rec(d) for d in unb]]
+    except ValueError:
+        res = [-1]
+    return [parsed, res]
+
+
+def _cval(v):
+    if isinstance(v, bool):
+        return "(VB %s)" % ("true" if v else "false")
+    if isinstance(v, str):
+        return "(VS %s)" % cbytes(v)
+    return "(VO (%d))" % int(v)
+
+
+def records_term(case):
+    quiet()
+    form, col = case["input"], case["col"]
+    strings = [col]
+    rsmis = []
+    if "str" in form:
+        rsmis.append(form["str"])
+        inp = "(InStr %s)" % cbytes(form["str"])
+    elif "other" in form:
+        inp = "InOther"
+    else:
+        items = []
+        for it in form["list"]:
+            if isinstance(it, str):
+                rsmis.append(it)
+                items.append("(IStr %s)" % cbytes(it))
+            elif "dict" in it:
+                for k, v in it["dict"]:
+                    strings.append(k)
+                    if isinstance(v, str):
+                        strings.append(v)
+                        if k == col:
+                            rsmis.append(v)
+                items.append("(IDict [%s])" % "; ".join("(%s, %s)" % (cbytes(k), _cval(v)) for k, v in it["dict"]))
+            else:
+                items.append("IOther")
+        inp = "(InList [%s])" % "; ".join(items)
+    if not ascii_ok(*(strings + rsmis)):
+        return None
+    tbl = {}
+    for s in rsmis:
+        for p in s.split(">>"):
+            if p not in tbl:
+                tbl[p] = formula_side(p)
+    return "(run_records %s %s %s)" % (ctable(tbl), inp, cbytes(col))
